@@ -268,6 +268,15 @@ class ServerFacts:
             return [e.value for e in d.elts]
         return None
 
+    def rest_predicate(self):
+        """the str predicate that guards `int(rest)` in the REST handler"""
+        node = self.methods["rest"]
+        for n in ast.walk(node):
+            if isinstance(n, ast.If) and isinstance(n.test, ast.Call) and isinstance(n.test.func, ast.Attribute):
+                if isinstance(n.test.func.value, ast.Name) and n.test.func.value.id == "rest":
+                    return n.test.func.attr
+        return "unknown"
+
     def stream_kwargs(self):
         """keywords passed to ThrottleStreamIO(...) in dispatcher / pasv / epsv handlers"""
         out = {}
@@ -384,6 +393,9 @@ def gen_server():
         lines.append("def restartKeep : List String := [\"<translator could not find the reset test>\"]")
     else:
         lines.append("def restartKeep : List String := [%s]" % ", ".join(lean_str(k) for k in keep))
+    lines.append("")
+    lines.append("/-- the predicate guarding `int(rest)` in the REST handler: `rest.<pred>()` -/")
+    lines.append("def restPredicate : String := %s" % lean_str(F.rest_predicate()))
     lines.append("")
     lines.append("/-- default of `parse_command(censor_commands=…)` -/")
     lines.append("def censorCommands : List String := [%s]" % ", ".join(lean_str(c) for c in (censor or [])))
